@@ -64,7 +64,7 @@ func (r *Rec) watchdog() {
 		if d != 0 && time.Now().UnixNano() > d {
 			b, _ := r.cur.Load().(ev.M)
 			m := ev.M{"k": "Timeout", "limit_ms": int(CallLimit / time.Millisecond)}
-			for _, f := range []string{"i", "kind", "site", "class", "type", "ty", "op"} {
+			for _, f := range []string{"i", "kind", "site", "class", "type", "ty", "op", "guard"} {
 				if v, ok := b[f]; ok {
 					m[f] = v
 				}
